@@ -96,6 +96,36 @@ class dtype(object):
         return 'dtype(%r)' % (self.tag,)
 
 
+class NPBool(int):
+    """numpy.bool_ look-alike for concrete results of all()/any(): unlike a
+    python bool, ~x is the logical negation."""
+
+    def __new__(cls, v):
+        return int.__new__(cls, 1 if v else 0)
+
+    def __invert__(self):
+        return NPBool(not int(self))
+
+    def __and__(self, o):
+        if isinstance(o, (bool, NPBool)):
+            return NPBool(bool(self) and bool(o))
+        return o.__rand__(bool(self)) if hasattr(o, '__rand__') else \
+            NotImplemented
+
+    __rand__ = __and__
+
+    def __or__(self, o):
+        if isinstance(o, (bool, NPBool)):
+            return NPBool(bool(self) or bool(o))
+        return o.__ror__(bool(self)) if hasattr(o, '__ror__') else \
+            NotImplemented
+
+    __ror__ = __or__
+
+    def __repr__(self):
+        return 'True' if self else 'False'
+
+
 def _prod(shape):
     n = 1
     for s in shape:
@@ -106,7 +136,7 @@ def _prod(shape):
 def _kind_of(x):
     if isinstance(x, SV):
         return x.kind
-    if isinstance(x, bool):
+    if isinstance(x, (bool, NPBool)):
         return 'bool'
     if isinstance(x, int):
         return 'int'
@@ -1120,12 +1150,16 @@ def _any_list(xs):
     return SV(z3.Or(*ts)) if len(ts) > 1 else SV(ts[0])
 
 
+def _npb(r):
+    return NPBool(r) if isinstance(r, bool) else r
+
+
 def all(a, axis=None):
-    return _reduce(asarray(a), axis, _all_list, 'bool')
+    return _npb(_reduce(asarray(a), axis, _all_list, 'bool'))
 
 
 def any(a, axis=None):
-    return _reduce(asarray(a), axis, _any_list, 'bool')
+    return _npb(_reduce(asarray(a), axis, _any_list, 'bool'))
 
 
 def _lt(a, b):
